@@ -154,6 +154,10 @@ class EFloatFormat(EncodableFormat):
 
         if not self._mpb_fmt.representable_in(x):
             return False
+        elif isinstance(x, Float) and x.is_nar():
+            # a NaN or infinity that this format has (checked above); it is
+            # encodable even when the format has no non-zero finite value
+            return True
         elif x.is_zero():
             return not (x.s and self.nan_kind == EFloatNanKind.NEG_ZERO)
         return self.has_nonzero()
